@@ -97,6 +97,8 @@ def main():
     queue = [cases[k:k + BATCH] for k in range(0, len(cases), BATCH)]
     queue.reverse()
     results = {}
+    nfailed = [0]
+    MAX_FAILED = int(os.environ.get('VERIF_MAX_FAILED', '40'))
     children = [Child(ctx, mod) for _ in range(max(1, min(nchildren, len(queue) or 1)))]
 
     def tlimit(item):
@@ -147,7 +149,12 @@ def main():
                 pos = ch.pos
                 ch.kill()
                 results[b[pos][0]] = failed
+                nfailed[0] += 1
                 rest = b[pos + 1:]
+                if nfailed[0] >= MAX_FAILED:
+                    # enough hangs / crashes to decide: do not spend the time limit on every remaining case
+                    del queue[:]
+                    rest = []
                 if rest:
                     queue.append(rest)
                 children[k] = Child(ctx, mod)
